@@ -79,6 +79,12 @@ def guards(rep, F):
                     bad = "engine work (%s) on a path that %s" % (short(eng[0][1]), "took the eps <= 0 branch" if g == 1 else "never compared eps with zero")
             elif g == 1:
                 n_id += 1
+            else:
+                # a path that does no engine work although eps <= 0 was not found true: admissible only if it decided on the input's
+                # size / emptiness, never on another comparison of eps
+                other = [show(t) for t, v in p.pc if re.search(r"\ba2\b", show(t)) and not re.search(r"^\(a2 <= (num_traits::identities::)?(Zero::)?zero\(\)\)$", show(t))]
+                if other:
+                    bad = "returns without engine work on a path that compared eps with something other than zero: %s" % other[0][:80]
         if bad:
             rep.bad("R9.1", "guard:" + name, "%s: %s — eps <= 0 is not the identity for this entry although it is for its sibling" % (name, bad), where=fn.loc())
         elif n_eng == 0:
